@@ -6,7 +6,7 @@ From PV Require Import Lib.Bytes Lib.Utf8 Lib.GoInt gen.Tables Model.EscFilters 
 From PV Require Import Tie.C17.
 Open Scope N_scope.
 
-(* escape / e: none of < > " ' in the output, every & starts one of the five entities *)
+(* escape / e: none of the four dangerous characters (see [dangerous]) in the output, every ampersand starts one of the five entities *)
 Theorem C17_escape_clean : forall s : str,
   forallb (fun b => negb (dangerous b)) (filter_escape s) = true /\ amp_ok (filter_escape s) = true.
 Proof. exact tie_escape_clean. Qed.
